@@ -124,24 +124,21 @@ def markAll : List Label → Prog Unit
   | [] => pure ()
   | l :: r => .mark l (markAll r)
 
-/-- the loop of `add_plus_one` for positions `i ≥ 1` -/
-def plusOneLoop (ins res carries : List Label) (inpLen outLen : Nat) : List Nat → Prog Unit
-  | [] => pure ()
-  | i :: r =>
-    if i < inpLen then
-      match ins[i]?, carries[i - 1]?, res[i]?, carries[i]? with
-      | some x, some cprev, some z, some ci =>
-        let rest := .add ⟨z, XOR, [x, cprev]⟩ rfl (plusOneLoop ins res carries inpLen outLen r)
-        if i < outLen - 1 then .add ⟨ci, AND, [x, cprev]⟩ rfl rest else rest
-      | _, _, _, _ => .fail "Py:IndexError"
-    else if i == inpLen then
-      match carries[i - 1]?, res[i]? with
-      | some cprev, some z => .add ⟨z, IFF, [cprev]⟩ rfl (plusOneLoop ins res carries inpLen outLen r)
-      | _, _ => .fail "Py:IndexError"
-    else
-      match res[i]? with
-      | some z => .add ⟨z, ALWAYS_FALSE, []⟩ rfl (plusOneLoop ins res carries inpLen outLen r)
-      | none => .fail "Py:IndexError"
+/-- the loop of `add_plus_one` for positions `i ≥ 1`, walking the remaining operand bits, result
+labels and carry labels in step (`cprev = carries[i-1]`; `ended` = some earlier position already
+was `i == inp_len`) -/
+def plusOneLoop : List Label → List Label → List Label → Label → Bool → Prog Unit
+  | _, [], _, _, _ => pure ()
+  | x :: xs, z :: zs, cs, cprev, ended =>
+    match cs with
+    | ci :: cr =>
+      let rest := .add ⟨z, XOR, [x, cprev]⟩ rfl (plusOneLoop xs zs cr ci ended)
+      if zs.isEmpty then rest else .add ⟨ci, AND, [x, cprev]⟩ rfl rest
+    | [] => .fail "Py:IndexError"
+  | [], z :: zs, cs, cprev, false =>
+    .add ⟨z, IFF, [cprev]⟩ rfl (plusOneLoop [] zs cs.tail (cs.headD cprev) true)
+  | [], z :: zs, cs, cprev, true =>
+    .add ⟨z, ALWAYS_FALSE, []⟩ rfl (plusOneLoop [] zs cs.tail cprev true)
 
 /-- `add_plus_one` -/
 def addPlusOne (ins : List Label) (resultLabels : Option (List Label)) (addOutputs bigEndian : Bool) :
@@ -155,9 +152,9 @@ def addPlusOne (ins : List Label) (resultLabels : Option (List Label)) (addOutpu
   let outLen := res0.length
   let carries ← freshLabels outLen res0 []
   match carries, ins0, res0 with
-  | c0 :: _, x0 :: _, z0 :: _ =>
+  | c0 :: cr, x0 :: xs, z0 :: zs =>
     .add ⟨c0, IFF, [x0]⟩ rfl (.add ⟨z0, NOT, [x0]⟩ rfl (do
-      plusOneLoop ins0 res0 carries inpLen outLen ((List.range outLen).drop 1)
+      plusOneLoop xs zs cr c0 false
       if addOutputs then markAll given
       pure given))
   | _, _, _ => .fail "Py:IndexError"
